@@ -11,7 +11,7 @@ from lib.sem_common import *
 prop, pid = sys.argv[1], sys.argv[2]
 mode = sys.argv[3] if len(sys.argv) > 3 else "diff"
 mod = importlib.import_module("props." + prop.lower())
-ctx = Ctx("T" + prop[1:]); ctx.seed = int(os.environ.get("VERIF_SEED", "1"))
+ctx = Ctx("T" + prop[1:], os.environ.get("VERIF_TIER", "quick")); ctx.seed = int(os.environ.get("VERIF_SEED", "1"))
 p = mod.corpus(ctx)[pid]
 eng = Engines(ctx)
 cnt = [0]
